@@ -1619,6 +1619,9 @@ func (g *FuncGen) runGhostAt(callee string, ord int, env *Env, results []Val) {
 		if ga.Ordinal != 0 && ga.Ordinal != ord {
 			continue
 		}
+		if ga.Ordinal != 0 && g.curInstr != nil {
+			g.anchor(fmt.Sprintf("call %s#%d", ga.Callee, ord), g.curInstr.Pos())
+		}
 		// ghost statements see the callee's parameters/results and, where not shadowed, the caller's parameters
 		gst := g.cur
 		if g.ghostState != nil {
